@@ -137,14 +137,15 @@ def jobs(tier):
         A(lambda: L.EvInst(["p", "r"], 1, "little", disciplined=False))
         A(lambda: L.EvInst(["f", "l"], 1, "big", disciplined=False))
         for ordering in ("big", "little"):
-            A(lambda o=ordering: L.EvInst(["p", "r", "l"], 2, o, disciplined=False, reads=False, extra=False))
+            A(lambda o=ordering: L.EvInst(["p", "r", "l"], 2, o, disciplined=False, reads=False, extra=False,
+                                          en_masks=[0, 3]))
             A(lambda o=ordering: L.EvInst(["l", "p", "l"], 1, o, disciplined=False, reads=False, extra=False))
             A(lambda o=ordering: L.EvInst(["p", "p"], 8, o))
     # ---- SharedIRQ
     A(lambda: L.SharedInst([["p"], ["l"]], 8, small=quick))
     if not quick:
         A(lambda: L.SharedInst([["r"], ["f"]], 32))
-        A(lambda: L.SharedInst([["p"], ["l"], ["l"]], 8, small=True))
+        A(lambda: L.SharedInst([["p"], ["l"], ["l"]], 8, small=2))
 
     # ---- mode B: bare managers, realistic sizes
     B(lambda: L.EvInst(rand_kinds(1, 3), 8, trigs=[0]))
